@@ -4,17 +4,19 @@ from nodegen import *
 import schedgen
 from schedgen import par, parse_par
 import c02
+import netfam
 
 ID = "C03"
 DRIVER = "node"
-MODEL_FILES = ["Model/Base.v", "Model/Parse.v", "Model/Node.v", "Model/Sched.v"]
+MODEL_FILES = ["Model/Base.v", "Model/Parse.v", "Model/Node.v", "Model/Sched.v", "Model/Net.v"]
 THEOREMS = ["C03_set_value_notifies", "C03_set_value_refused_silent", "C03_remove_value_notifies", "C03_inc_value_notifies", "C03_inc_value_refused_silent", "C03_nsubs_watch_key", "C03_nsubs_unwatch_key", "C03_nsubs_unwatch_all", "C03_inbox_sends", "C03_handle_set_notifies", "C03_handle_replicate_set_notifies", "C03_handle_remove_notifies", "C03_handle_increment_notifies", "C03_handle_watch_isolated", "C03_handle_unwatch_isolated", "C03_handle_unwatch_all_isolated", "C03_disconnect_subs", "C03_disconnect_quiet", "C03_final_view_last", "C03_final_view_highest", "C03_stale_subscription_after_db_switch", "C03_sched_watch_release", "C03_sched_unwatch_release", "C03_sched_other_release_keeps_watch", "C03_sched_other_session_release", "C03_sched_no_lost_subscription", "C03_sched_no_lost_subscription_closed", "C03_sched_schedule_full"]
 STRENGTH = {t: "proof-unbounded" for t in THEOREMS}
 RULE = ("1-2 writer sessions and 1-2 subscriber sessions issuing watch / unwatch / unwatch-all / disconnect (and reconnect) on the same "
         "and on different keys, over set, set-safe (accepted and refused), increment and remove, replicated writes included; exhaustive "
         "sequences (length <= 4 quick / 5 thorough) over a 12-symbol alphabet plus seeded random sequences up to 30 steps, commands "
         "executed one at a time; distinct = distinct canonical trace; non-trivial = a subscriber received a notification and later "
-        "unsubscribed or disconnected")
+        "unsubscribed or disconnected; transport family t*: the random histories again over real TCP / WebSocket connections "
+        "(notifications read from the sockets, disconnect = closing the socket)")
 ASSUMPTIONS = ["commands are executed one at a time (interleavings at lock granularity are not covered by this check)",
                "a session that watches a key twice holds two subscriptions and is notified twice"]
 TRUSTED = []
@@ -48,7 +50,7 @@ def build(seq):
 
 
 def driver_of(case):
-    return "sched" if case[0].startswith("p") else "node"
+    return "sched" if case[0].startswith("p") else ("net" if case[0].startswith("t") else "node")
 
 
 WCMDS = ["set %s x@", "set %s y@", "set-safe %s 0 z@", "set-safe %s 9 q@", "increment %s", "remove %s"]
@@ -128,6 +130,12 @@ def gen_cases(tier, seed):
             elif r < 0.9: seq.append(("c", 1, "remove " + key))
             else: seq.append(("c", 0, rng.choice(["replicate d1 %s -1 r%d" % (key, rng.randint(0, 9)), "replicate-remove d1 " + key, "replicate-increment d1 %s 2" % key])))
         cases.append(("r%d" % i, ["P"], build(seq)))
+        if i < {"quick": 300, "thorough": 5000, "search": 200}[tier]:
+            # the same history through the real TCP / WebSocket listeners (their own disconnect paths, their
+            # own delivery of the notifications)
+            kinds = [rng.choice("tw") for _ in range(12)]
+            cases.append(("t%d" % i, ["P"], netfam.to_net(build(seq), kinds)))
+            dist["transport"] = dist.get("transport", 0) + 1
     dist["random"] = nrand
     return cases, dist
 
@@ -281,6 +289,8 @@ def oracle(case, io, mo):
         return sched_oracle(case, io, mo)
     fails = []
     obs = split_obs(io)
+    if case[0].startswith("t"):
+        fails += netfam.transport_failures(case, obs)
     subs = {}          # (sid, key) -> number of subscriptions
     closed = set()
     held = {}          # sid -> key -> (version, value) highest-versioned changed-version held
